@@ -101,7 +101,7 @@ func c05load(g *Gen, i int, path string, files map[string]string, names []string
 	if c05depFirst {
 		ud := filepath.Join(dir, "c05user")
 		os.MkdirAll(ud, 0755)
-		os.WriteFile(filepath.Join(ud, "user.go"), []byte(c05userSrc(path, files)), 0644)
+		os.WriteFile(filepath.Join(ud, names[0]), []byte(c05userSrc(path, files)), 0644) // the same file name as a file of the package under test
 		if err := p.LoadPackagesWithConfigForTesting(cfg, "ex.test/c05user"); err != nil {
 			return nil, err
 		}
